@@ -428,6 +428,59 @@ def replay(path):
     return 1 if res["violates"] else 0
 
 
+def api_rowwise(rep, seed):
+    """bounded stand-in for the glue after the wrapper (never counted as proved): through the public API,
+    with permuted / non-default index labels, row i of every column of a scalar rule whose arguments
+    are all input columns equals the rule applied to row i of those inputs, with the declared dtype"""
+    import pandas as pd
+
+    from vt import apirel, popgen
+
+    n_eval = 0
+    distinct = set()
+    bad = []
+    for d in ("2023-07-01", "2016-01-01"):
+        e = venv.Env(d)
+        pop = popgen.population(["family", "single_parent", "pensioners", "adult_child"], year=int(d[:4]), seed=seed)
+        fno, _ = e.universe(None, list(pop.columns))
+        reachable = set(e.dag(data_cols=list(pop.columns)).nodes)  # computable by C08
+        cands = []
+        for n, f in sorted(fno.items()):
+            if n not in reachable or venv.classify_node(n, f) != "scalar_rule":
+                continue
+            f0 = inspect.unwrap(f)
+            args = [a for a in inspect.signature(f0).parameters if not a.endswith("_params")]
+            if args and all(a in pop.columns for a in args) and rules.declared_return(f) in ("float", "int", "bool"):
+                cands.append((n, f, f0, args))
+        cands = cands[:60]
+        for label, idx in (("default", None), ("reversed", list(reversed(range(len(pop))))), ("shifted", [10 * i + 7 for i in range(len(pop))]), ("strings", [f"r{i}" for i in range(len(pop))])):
+            data = pop.copy()
+            if idx is not None:
+                data.index = idx
+            for debug in (False, True):
+                try:
+                    res, _ = apirel.simulate(e, data, targets=[c[0] for c in cands], rounding=False, debug=debug)
+                except Exception as ex:  # noqa: BLE001
+                    bad.append(f"{d}: index {label}, debug={debug}: call fails: {ex!r}"[:300])
+                    continue
+                n_eval += 1
+                if len(res) != len(pop):
+                    bad.append(f"{d}: index {label}, debug={debug}: {len(res)} rows for {len(pop)} input rows")
+                    continue
+                for n, f, f0, args in cands:
+                    kw = e.conc_params_for(f)
+                    want = [f0(**{a: pop[a].iloc[r].item() for a in args}, **kw) for r in range(len(pop))]
+                    got = res[n].to_numpy()
+                    distinct.add((d, label, debug, n))
+                    wd = {"float": "f", "int": "i", "bool": "b"}[rules.declared_return(f)]
+                    ok = got.dtype.kind == wd and all((g == w) or (isinstance(w, float) and abs(g - w) <= 1e-12 * max(1.0, abs(w))) for g, w in zip(got.tolist(), want))
+                    if not ok and len(bad) < 8:
+                        bad.append(f"{d}: index labels {label}, debug={debug}: column {n} = {got.tolist()[:6]} ({got.dtype}); the rule applied row by row gives {want[:6]} (declared {rules.declared_return(f)})")
+    rep.bounded["api_rowwise"] = {"evaluations": n_eval, "distinct_nontrivial": len(distinct), "rule": "2 dates x 4 index labellings x debug on/off: up to 60 scalar rules whose arguments are all inputs, compared per row with the raw rule (rounding off); distinct = (date, labelling, debug, rule)", "failures": bad[:8]}
+    for i, b in enumerate(bad[:3]):
+        rep.violation(f"api-rowwise:{i}:{b[:50]}", b, {"what": b, "kind": "bounded stand-in"}, True)
+
+
 # ------------------------------------------------------------------------------------
 def run(tier="quick", seed=0, jobs=16):
     rep = Report("C03", tier, seed, "proof")
@@ -521,6 +574,7 @@ def run(tier="quick", seed=0, jobs=16):
                 o["replayed"] = res.get("violates")
         rep.violation(key, what, {"module": mod, "qualname": qn, "date": it["first_date"], "rows": rows, "result": res, "obligation": f"T:{rule}@{it['first_date']}"}, failing_input_found=bool(res.get("violates")))
 
+    api_rowwise(rep, seed)
     rep.samples = [
         {"obligation": o["name"], "status": o["status"], "where": o["where"], "detail": o["detail"][:300]}
         for o in rep.obligations[:2] + [o for o in rep.obligations if o["status"] == "refuted"][:3]
